@@ -89,9 +89,13 @@ Delivered(id, sh, m) ==
 
 \* does the delivered body match the header's transaction root ?
 BodyMatches(m) == m.body \in {"ok", "evmnonce"} /\ m.troot = "ok"
+\* troot: "bad"/"zero" = arbitrary / all-zero transaction root with the block root of the valid block;
+\*        "badc"/"zeroc" = the same with a block root recomputed for it (only Block.Deserialization can notice)
+RootInconsistent(m) == m.troot \in {"bad", "zero"}
 
 Applicable(p, sh, m) ==
     /\ (m.body # "ok" => sh.ntx >= 1)
+    /\ (m.troot \in {"zero", "zeroc"} => sh.ntx >= 1)     \* the zero root IS the root of an empty block
     /\ (m.prev = "old" => Cur >= 1)
     /\ (p = "exec" => m.sroot = "ok")          \* SubmitBlock takes the execution result, not a root
 
@@ -110,7 +114,7 @@ Outcome(p, sh, m) ==
     ELSE IF m.sigs # "ok" THEN "signature"                           \* verifyHeader: VerifyMultiSignature
     ELSE IF m.body = "evmnonce" THEN "exec"                          \* executeBlock: handleTransaction error
     ELSE IF m.sroot = "bad" /\ nexec > 0 THEN "stateroot"            \* saveBlock (empty blocks are not checked)
-    ELSE IF m.broot = "bad" \/ m.troot = "bad" THEN "blockroot"      \* submitBlock
+    ELSE IF m.broot = "bad" \/ RootInconsistent(m) THEN "blockroot"  \* submitBlock
     ELSE IF ~BodyMatches(m) /\ BodyChecked THEN "txroot"             \* (design intent only)
     ELSE "ok"
 
